@@ -399,7 +399,7 @@ func runC01(pl *plan.Plan, out *plan.Outcome) {
 	}
 	res := env.Run()
 	if res != "done" && out.Trouble == "" {
-		out.Trouble = "run ended: " + res
+		env.runEnded(res, out)
 		return
 	}
 	if len(sessions) == 0 {
